@@ -20,9 +20,10 @@ def model_merge(ctx, sets, schema="1.2"):
 
 
 def collapse(errs):
+    """the number of syntax errors ANTLR reports for one file is external: consecutive syntax entries of one file are one"""
     out = []
     for e in errs:
-        if e[0] == "syntax" and out and out[-1][0] == "syntax":
+        if e[0] == "syntax" and out and out[-1] == e:
             continue
         out.append(e)
     return out
@@ -36,13 +37,14 @@ def norm_impl_run(x):
         if e[0] == 1:
             es.append(("conflict", T(e[1]), T(e[2]), e[3], e[4], e[5], e[6]))
         elif e[0] == 0:
-            es.append(("syntax",))
+            es.append(("syntax", T(e[2]) if len(e) > 2 else ""))
         else:
             es.append(("other", T(e[1])))
     return ("err", collapse(es), bool(x.get("has_model")))
 
 
-def norm_model(r):
+def norm_model(r, names=None):
+    """names: the file names of the list, so that a syntax entry (file index) can be compared by name"""
     if r[0] == 0:
         mods = [[t[0], sorted(t[1])] for t in r[2]]
         return ("ok", dslgen.canon_model(r[1]), mods)
@@ -50,7 +52,7 @@ def norm_model(r):
         es = []
         for e in r[1]:
             if e[0] == 0:
-                es.append(("syntax",))
+                es.append(("syntax", names[e[1]] if names is not None and len(e) > 1 and e[1] < len(names) else ""))
             else:
                 es.append(("conflict", T(e[1]), T(e[2]), e[3], e[4], e[5], e[6]))
         return ("err", collapse(es), False)
@@ -61,7 +63,7 @@ def run_sets(ctx, sets, label, repeat=1):
     """returns list of (impl runs normalised [list], model normalised or None)"""
     raw = impl_merge(ctx, sets, repeat=repeat)
     try:
-        mr = [norm_model(r) for r in model_merge(ctx, sets)]
+        mr = [norm_model(r, [n for n, _ in rendered]) for r, rendered in zip(model_merge(ctx, sets), sets)]
     except core.ModelUnavailable:
         ctx.violation("model-unavailable", {"coq_errors": ctx.st.coq_errors[-2000:]}, found_input=False)
         mr = [None] * len(sets)
